@@ -312,6 +312,7 @@ func (srv *Server) ListenAndServe() error {
 	defer unlock()
 
 	if srv.started {
+		vhook("start.refused", srv, 0, 0)
 		return &Error{err: "server already started"}
 	}
 
@@ -330,6 +331,7 @@ func (srv *Server) ListenAndServe() error {
 		}
 		srv.Listener = l
 		srv.started = true
+		vhook("start.started", srv, 0, 0)
 		unlock()
 		return srv.serveTCP(l)
 	case "tcp-tls", "tcp4-tls", "tcp6-tls":
@@ -344,6 +346,7 @@ func (srv *Server) ListenAndServe() error {
 		l = tls.NewListener(l, srv.TLSConfig)
 		srv.Listener = l
 		srv.started = true
+		vhook("start.started", srv, 0, 0)
 		unlock()
 		return srv.serveTCP(l)
 	case "udp", "udp4", "udp6":
@@ -358,6 +361,7 @@ func (srv *Server) ListenAndServe() error {
 		}
 		srv.PacketConn = l
 		srv.started = true
+		vhook("start.started", srv, 0, 0)
 		unlock()
 		return srv.serveUDP(u)
 	}
@@ -372,6 +376,7 @@ func (srv *Server) ActivateAndServe() error {
 	defer unlock()
 
 	if srv.started {
+		vhook("start.refused", srv, 0, 0)
 		return &Error{err: "server already started"}
 	}
 
@@ -386,11 +391,13 @@ func (srv *Server) ActivateAndServe() error {
 			}
 		}
 		srv.started = true
+		vhook("start.started", srv, 0, 0)
 		unlock()
 		return srv.serveUDP(srv.PacketConn)
 	}
 	if srv.Listener != nil {
 		srv.started = true
+		vhook("start.started", srv, 0, 0)
 		unlock()
 		return srv.serveTCP(srv.Listener)
 	}
@@ -409,8 +416,10 @@ func (srv *Server) Shutdown() error {
 // A context.Context may be passed to limit how long to wait for connections
 // to terminate.
 func (srv *Server) ShutdownContext(ctx context.Context) error {
+	vhook("gate.shutdown.enter", srv, 0, 0)
 	srv.lock.Lock()
 	if !srv.started {
+		vhook("shutdown.refused", srv, 0, 0)
 		srv.lock.Unlock()
 		return &Error{err: "server not started"}
 	}
@@ -428,12 +437,14 @@ func (srv *Server) ShutdownContext(ctx context.Context) error {
 	for rw := range srv.conns {
 		rw.SetReadDeadline(aLongTimeAgo) // Unblock reads
 	}
+	vhook("shutdown.begin", srv, uintptr(len(srv.conns)), 0)
 
 	srv.lock.Unlock()
 
 	if testShutdownNotify != nil {
 		testShutdownNotify.Broadcast()
 	}
+	vhook("gate.shutdown.select", srv, 0, 0)
 
 	var ctxErr error
 	select {
@@ -469,17 +480,23 @@ func (srv *Server) serveTCP(l net.Listener) error {
 
 	var wg sync.WaitGroup
 	defer func() {
+		vhook("gate.serve.defer", srv, 0, 0)
 		wg.Wait()
+		vhook("serve.drained", srv, 0, 0)
 		close(srv.shutdown)
+		vhook("serve.chanclosed", srv, 0, 0)
 	}()
 
+	vhook("gate.serve.top", srv, 0, 0)
 	for srv.isStarted() {
 		rw, err := l.Accept()
+		vhook("gate.serve.got", srv, vconn(rw), verr(err))
 		if err != nil {
 			if !srv.isStarted() {
 				return nil
 			}
 			if neterr, ok := err.(net.Error); ok && neterr.Temporary() {
+				vhook("gate.serve.top", srv, 0, 0)
 				continue
 			}
 			return err
@@ -487,9 +504,11 @@ func (srv *Server) serveTCP(l net.Listener) error {
 		srv.lock.Lock()
 		// Track the connection to allow unblocking reads on shutdown.
 		srv.conns[rw] = struct{}{}
+		vhook("conn.reg", srv, vconn(rw), 0)
 		srv.lock.Unlock()
 		wg.Add(1)
 		go srv.serveTCPConn(&wg, rw)
+		vhook("gate.serve.top", srv, 0, 0)
 	}
 
 	return nil
@@ -516,12 +535,16 @@ func (srv *Server) serveUDP(l net.PacketConn) error {
 
 	var wg sync.WaitGroup
 	defer func() {
+		vhook("gate.serve.defer", srv, 0, 0)
 		wg.Wait()
+		vhook("serve.drained", srv, 0, 0)
 		close(srv.shutdown)
+		vhook("serve.chanclosed", srv, 0, 0)
 	}()
 
 	rtimeout := srv.getReadTimeout()
 	// deadline is not used here
+	vhook("gate.serve.top", srv, 0, 0)
 	for srv.isStarted() {
 		var (
 			m    []byte
@@ -534,24 +557,29 @@ func (srv *Server) serveUDP(l net.PacketConn) error {
 		} else {
 			m, sPC, err = readerPC.ReadPacketConn(l, rtimeout)
 		}
+		vhook("gate.serve.got", srv, vbuf(m), verr(err))
 		if err != nil {
 			if !srv.isStarted() {
 				return nil
 			}
 			if netErr, ok := err.(net.Error); ok && netErr.Temporary() {
+				vhook("gate.serve.top", srv, 0, 0)
 				continue
 			}
 			return err
 		}
 		if len(m) < headerSize {
 			if cap(m) == srv.UDPSize {
+				vhook("pool.put", srv, vbuf(m), 0)
 				srv.udpPool.Put(m[:srv.UDPSize])
 			}
 			srv.MsgInvalidFunc(m, ErrShortRead)
+			vhook("gate.serve.top", srv, 0, 0)
 			continue
 		}
 		wg.Add(1)
 		go srv.serveUDPPacket(&wg, m, l, sUDP, sPC)
+		vhook("gate.serve.top", srv, 0, 0)
 	}
 
 	return nil
@@ -559,6 +587,7 @@ func (srv *Server) serveUDP(l net.PacketConn) error {
 
 // Serve a new TCP connection.
 func (srv *Server) serveTCPConn(wg *sync.WaitGroup, rw net.Conn) {
+	vhook("gate.conn.start", srv, vconn(rw), 0)
 	w := &response{tsigProvider: srv.tsigProvider(), tcp: rw}
 	if srv.DecorateWriter != nil {
 		w.writer = srv.DecorateWriter(w)
@@ -583,6 +612,7 @@ func (srv *Server) serveTCPConn(wg *sync.WaitGroup, rw net.Conn) {
 		limit = maxTCPQueries
 	}
 
+	vhook("gate.conn.top", srv, vconn(rw), 0)
 	for q := 0; (q < limit || limit == -1) && srv.isStarted(); q++ {
 		m, err := reader.ReadTCP(w.tcp, timeout)
 		if err != nil {
@@ -599,21 +629,26 @@ func (srv *Server) serveTCPConn(wg *sync.WaitGroup, rw net.Conn) {
 		// The first read uses the read timeout, the rest use the
 		// idle timeout.
 		timeout = idleTimeout
+		vhook("gate.conn.top", srv, vconn(rw), 0)
 	}
 
 	if !w.hijacked {
 		w.Close()
 	}
+	vhook("gate.conn.closing", srv, vconn(rw), 0)
 
 	srv.lock.Lock()
 	delete(srv.conns, w.tcp)
+	vhook("conn.unreg", srv, vconn(rw), 0)
 	srv.lock.Unlock()
 
 	wg.Done()
+	vhook("worker.exit", srv, vconn(rw), 0)
 }
 
 // Serve a new UDP request.
 func (srv *Server) serveUDPPacket(wg *sync.WaitGroup, m []byte, u net.PacketConn, udpSession *SessionUDP, pcSession net.Addr) {
+	vhook("gate.pkt.start", srv, vbuf(m), 0)
 	w := &response{tsigProvider: srv.tsigProvider(), udp: u, udpSession: udpSession, pcSession: pcSession}
 	if srv.DecorateWriter != nil {
 		w.writer = srv.DecorateWriter(w)
@@ -623,6 +658,7 @@ func (srv *Server) serveUDPPacket(wg *sync.WaitGroup, m []byte, u net.PacketConn
 
 	srv.serveDNS(m, w)
 	wg.Done()
+	vhook("worker.exit", srv, 0, vbuf(m))
 }
 
 func (srv *Server) serveDNS(m []byte, w *response) {
@@ -638,6 +674,7 @@ func (srv *Server) serveDNS(m []byte, w *response) {
 
 	switch action := srv.MsgAcceptFunc(dh); action {
 	case MsgAccept:
+		vhook("dns.action", srv, vwconn(w), uintptr(action))
 		err := req.unpack(dh, m, off)
 		if err == nil {
 			break
@@ -646,6 +683,7 @@ func (srv *Server) serveDNS(m []byte, w *response) {
 		srv.MsgInvalidFunc(m, err)
 		fallthrough
 	case MsgReject, MsgRejectNotImplemented:
+		vhook("dns.action", srv, vwconn(w), uintptr(action))
 		opcode := req.Opcode
 		req.SetRcodeFormatError(req)
 		req.Zero = false
@@ -660,7 +698,9 @@ func (srv *Server) serveDNS(m []byte, w *response) {
 		w.WriteMsg(req)
 		fallthrough
 	case MsgIgnore:
+		vhook("dns.action", srv, vwconn(w), uintptr(action))
 		if w.udp != nil && cap(m) == srv.UDPSize {
+			vhook("pool.put", srv, vbuf(m), 0)
 			srv.udpPool.Put(m[:srv.UDPSize])
 		}
 
@@ -677,10 +717,13 @@ func (srv *Server) serveDNS(m []byte, w *response) {
 	}
 
 	if w.udp != nil && cap(m) == srv.UDPSize {
+		vhook("pool.put", srv, vbuf(m), 0)
 		srv.udpPool.Put(m[:srv.UDPSize])
 	}
 
+	vhook("handler.enter", srv, vwconn(w), vbuf(m))
 	srv.Handler.ServeDNS(w, req) // Writes back to the client
+	vhook("handler.exit", srv, vwconn(w), vbuf(m))
 }
 
 func (srv *Server) readTCP(conn net.Conn, timeout time.Duration) ([]byte, error) {
@@ -688,10 +731,12 @@ func (srv *Server) readTCP(conn net.Conn, timeout time.Duration) ([]byte, error)
 	// have been set in the distant past to unblock the read
 	// below. We must not override it, otherwise we may block
 	// ShutdownContext.
+	vhook("gate.read.enter", srv, vconn(conn), 0)
 	srv.lock.RLock()
 	if srv.started {
 		conn.SetReadDeadline(time.Now().Add(timeout))
 	}
+	vhook("read.dl", srv, vconn(conn), vbool(srv.started))
 	srv.lock.RUnlock()
 
 	var length uint16
@@ -708,16 +753,20 @@ func (srv *Server) readTCP(conn net.Conn, timeout time.Duration) ([]byte, error)
 }
 
 func (srv *Server) readUDP(conn *net.UDPConn, timeout time.Duration) ([]byte, *SessionUDP, error) {
+	vhook("gate.read.enter", srv, vpconn(conn), 0)
 	srv.lock.RLock()
 	if srv.started {
 		// See the comment in readTCP above.
 		conn.SetReadDeadline(time.Now().Add(timeout))
 	}
+	vhook("read.dl", srv, vpconn(conn), vbool(srv.started))
 	srv.lock.RUnlock()
 
 	m := srv.udpPool.Get().([]byte)
+	vhook("pool.get", srv, vbuf(m), 0)
 	n, s, err := ReadFromSessionUDP(conn, m)
 	if err != nil {
+		vhook("pool.put", srv, vbuf(m), 0)
 		srv.udpPool.Put(m)
 		return nil, nil, err
 	}
@@ -726,16 +775,20 @@ func (srv *Server) readUDP(conn *net.UDPConn, timeout time.Duration) ([]byte, *S
 }
 
 func (srv *Server) readPacketConn(conn net.PacketConn, timeout time.Duration) ([]byte, net.Addr, error) {
+	vhook("gate.read.enter", srv, vpconn(conn), 0)
 	srv.lock.RLock()
 	if srv.started {
 		// See the comment in readTCP above.
 		conn.SetReadDeadline(time.Now().Add(timeout))
 	}
+	vhook("read.dl", srv, vpconn(conn), vbool(srv.started))
 	srv.lock.RUnlock()
 
 	m := srv.udpPool.Get().([]byte)
+	vhook("pool.get", srv, vbuf(m), 0)
 	n, addr, err := conn.ReadFrom(m)
 	if err != nil {
+		vhook("pool.put", srv, vbuf(m), 0)
 		srv.udpPool.Put(m)
 		return nil, nil, err
 	}
